@@ -474,7 +474,11 @@ func (s *ReverseInnerSearcher) Find(haystack []byte) *Match {
 			// `.*\.txt\d+`) may run on to it, so this candidate's end need not be
 			// the leftmost-first end. A match starts at matchStart; let the full
 			// pattern decide where it ends.
-			if fStart, fEnd, ok := s.pikevm.SearchAt(haystack, matchStart); ok {
+			// Nor need its start be the leftmost one: a match that begins earlier
+			// may use the later occurrence as its inner literal
+			// ([ab]+(?:\w...|\d)f\w+ on "azb1ff1": [2 7] via the first f, the
+			// leftmost match [0 7] via the second). Search from the beginning.
+			if fStart, fEnd, ok := s.pikevm.SearchAt(haystack, 0); ok {
 				return NewMatch(fStart, fEnd, haystack)
 			}
 		}
@@ -684,7 +688,8 @@ func (s *ReverseInnerSearcher) findIndicesAtImpl(haystack []byte, at int, fwdCac
 		matchEnd := matchEndAbs
 		if s.prefilter.Find(haystack, pos+1) >= 0 {
 			// See Find: a greedy prefix may extend to a later literal occurrence.
-			if fStart, fEnd, ok := s.pikevm.SearchAt(haystack, matchStart); ok {
+			// (and its start: search from 'at', not from this candidate's start)
+			if fStart, fEnd, ok := s.pikevm.SearchAt(haystack, at); ok {
 				return fStart, fEnd, true
 			}
 		}
